@@ -16,6 +16,13 @@ TARGETS = {
     "t_threads": dict(variant="tsan", srcs=["t_threads.cc"], libs=RC + " -lpthread"),
     "fuzz_ovmb": dict(variant="fuzzrel", srcs=["fuzz_ovmb.cc"], libs="", ldflags="-fsanitize=fuzzer"),
     "fuzz_ascii": dict(variant="fuzzrel", srcs=["fuzz_ascii.cc", "ascii_shim_poly.cc", "ascii_shim_tet.cc", "ascii_shim_hex.cc"], libs="", ldflags="-fsanitize=fuzzer"),
+    # the same program interpreters driven by libFuzzer (coverage-guided) instead of rapidcheck
+    "fuzz_kernel": dict(variant="fuzzrel", srcs=["t_kernel.cc"], objsuffix="_fz", cflags="-DVF_FUZZ_MAIN", libs=RC, ldflags="-fsanitize=fuzzer"),
+    "fuzz_queries": dict(variant="fuzzrel", srcs=["t_queries.cc"], objsuffix="_fz", cflags="-DVF_FUZZ_MAIN", libs=RC, ldflags="-fsanitize=fuzzer"),
+    "fuzz_tet": dict(variant="fuzzrel", srcs=["t_tet.cc"], objsuffix="_fz", cflags="-DVF_FUZZ_MAIN", libs=RC, ldflags="-fsanitize=fuzzer"),
+    "fuzz_hex": dict(variant="fuzzrel", srcs=["t_hex.cc"], objsuffix="_fz", cflags="-DVF_FUZZ_MAIN", libs=RC, ldflags="-fsanitize=fuzzer"),
+    "fuzz_copy": dict(variant="fuzzrel", srcs=["t_copy.cc"], objsuffix="_fz", cflags="-DVF_FUZZ_MAIN", libs=RC, ldflags="-fsanitize=fuzzer"),
+    "fuzz_registry": dict(variant="fuzzrel", srcs=["t_registry.cc"], objsuffix="_fz", cflags="-DVF_FUZZ_MAIN", libs=RC, ldflags="-fsanitize=fuzzer"),
     "t_handles": dict(variant="opt", srcs=["t_handles.cc"], libs="-lpthread"),
 }
 
@@ -408,6 +415,21 @@ CHECKS = {
         level_note="Declared sizes beyond 10^6 are excluded from the campaigns (allocator behaviour only).",
     ),
 }
+
+# coverage-guided second engine: the libFuzzer build of the same interpreter / oracles takes a share of the workers
+_FUZZ = {"fuzz_kernel": ["C01", "C02", "C03", "C04", "C12", "C17"], "fuzz_queries": ["C05", "C08", "C09", "C10", "C11"],
+         "fuzz_tet": ["C15"], "fuzz_hex": ["C16"], "fuzz_copy": ["C13"], "fuzz_registry": ["C14"]}
+# cost of one 100-op program differs by two orders of magnitude between the oracles (per-step sweeps): size the
+# initial corpus (random programs) and the program length so that loading it takes well under the campaign time
+_FUZZ_SIZE = {"C12": (15, 40), "C10": (15, 40), "C16": (15, 40), "C15": (20, 25),
+              "C17": (40, 60), "C05": (40, 60), "C08": (60, 60), "C09": (40, 60), "C11": (40, 60)}
+for _t, _ids in _FUZZ.items():
+    for _i in _ids:
+        _n, _ops = _FUZZ_SIZE.get(_i, (300, 110))
+        # quick tier: only where one execution is cheap enough for a 45 s campaign to add thousands of executions
+        _q = None if _i in ("C05", "C09", "C10", "C11", "C12", "C15", "C16") else dict(workers=2, seconds=45, seed_programs=_n, max_ops=_ops)
+        CHECKS[_i]["fuzz"] = dict(target=_t, quick=_q,
+                                  thorough=dict(workers=5, seconds=1500, seed_programs=_n * 3, max_ops=_ops))
 
 ENGINES = [
     {"name": "libFuzzer", "path": "/verif/harness", "serves_properties": ["C07"],
